@@ -165,6 +165,13 @@ func TestC09(t *testing.T) {
 		}
 		synctest.Test(t, func(t *testing.T) { c09Lag(t, run, k, run.Rand(n+k)) })
 	}
+	for k := 0; k < run.N(8, 200); k++ {
+		desc := map[string]any{"idx": k, "kind": "a-slow-probe-overtaken-by-failing-ones"}
+		if !run.Mine(n+1000+k, desc) {
+			continue
+		}
+		synctest.Test(t, func(t *testing.T) { c09Stale(t, run, k, run.Rand(n+1000+k)) })
+	}
 }
 
 // c09Lag: the probe timeout is longer than the probe interval (as with the defaults, 5s and 1s), and
@@ -215,6 +222,70 @@ func c09Lag(t *testing.T, run *Run, idx int, rng *rand.Rand) {
 		}
 	}
 	run.Class(fmt.Sprintf("lag|nt%d|lagging%d", nt, nlag))
+}
+
+// c09Stale: one probe answers late (a 200 after 500ms, with a probe interval of 200ms and a timeout
+// of 5s), every probe after it fails at once. "A target whose latest probe failed receives no new
+// requests until a later probe succeeds": whatever the prober does while the slow probe is out,
+// the 200 of an *earlier* probe is not a later probe succeeding.
+func c09Stale(t *testing.T, run *Run, idx int, rng *rand.Rand) {
+	w := NewWorld(t, WorldOpt{})
+	defer w.Close()
+	run.Eval()
+	to := DefTO
+	to.HealthCheckConfig.Interval = 200 * time.Millisecond
+	to.HealthCheckConfig.Timeout = 5 * time.Second
+	slow := time.Duration(450+rng.IntN(300))*time.Millisecond + OffTarget
+	name := fmt.Sprintf("stale%d-t0:80", idx%5)
+	w.AddTarget(name, func(n int, at time.Duration) ProbeAct {
+		switch {
+		case n == 0:
+			return ProbeAct{Status: 200}
+		case n == 1:
+			return ProbeAct{Status: 200, Delay: slow}
+		}
+		return ProbeAct{Status: 500}
+	})
+	if c := w.Deploy("svc", []string{name}, DefSO, to, 5*time.Second, time.Second); c.Err != "" {
+		run.Inconclusive("setup failed: %s", c.Err)
+		return
+	}
+	t0 := w.Cmds[0].Issue
+	for k := 0; k < 100; k++ {
+		w.GoReq(t0+100*time.Millisecond+time.Duration(k)*20*time.Millisecond+OffArrival, Req{ID: fmt.Sprintf("st%d", k), Host: "c09.example", Path: "/s"})
+	}
+	w.Wait()
+	pl := w.Target(name).ProbeLog()
+	for _, r := range w.RespLog() {
+		// the verdict of the latest-*started* probe among those completed before the request
+		var latest *ProbeRec
+		tie := false
+		for i := range pl {
+			p := &pl[i]
+			if !p.Ended {
+				continue
+			}
+			if absDur(p.End-r.Sent) < 5*time.Millisecond {
+				tie = true
+			}
+			if p.End < r.Sent && (latest == nil || p.Start > latest.Start) {
+				latest = p
+			}
+		}
+		if tie || latest == nil {
+			continue
+		}
+		healthy := latest.Passed(to.HealthCheckConfig.Timeout)
+		if !healthy && r.Status == 200 {
+			run.Violate("sent-to-unhealthy-target:stale-probe-result", fmt.Sprintf("request %s at %v was forwarded although the latest probe (started %v, ended %v) had failed; an earlier, slower probe (%v) had answered 200 meanwhile", r.ID, r.Sent, latest.Start, latest.End, slow), map[string]any{"idx": idx, "slow_probe": slow}, func() []string { return w.Trace(100) })
+			return
+		}
+		if healthy && r.Status != 200 {
+			run.Violate("refused-with-healthy-target:stale", fmt.Sprintf("request %s at %v got %d although the latest probe (started %v) had succeeded", r.ID, r.Sent, r.Status, latest.Start), map[string]any{"idx": idx, "slow_probe": slow}, func() []string { return w.Trace(100) })
+			return
+		}
+	}
+	run.Class("stale-probe")
 }
 
 type c09Done struct {
